@@ -8,7 +8,7 @@ PROP = dict(
                 "chosen around used size, capacity and the 128-byte allocation granule, on unshared, shared, immutable and no-copy buffers; "
                 "after every operation every handle is read back and compared with its shadow vector.  Exploration, not proof."),
     level_note="trusts the shadow-vector model in harness/c04_*.c/.cpp, gcc ASan+UBSan; shrinking reserve / type-changing reserve are adopted (only prefix property and other handles asserted)",
-    legs=[dict(name="c04_array", src=["c04_array.c"], libs=["mptcore"], batch=512, lsan=True,
+    legs=[dict(name="c04_array", memcheck=1500, src=["c04_array.c"], libs=["mptcore"], batch=512, lsan=True,
                floors={"array_append": 1000, "array_insert": 1000, "array_set": 1000, "array_slice": 1000, "buffer_cut": 1000,
                        "array_reserve": 1000, "printf": 1000, "slice_write": 1000, "state:shared": 5000, "state:immutable": 200,
                        "state:nocopy": 200, "history:had-shared-buffer": 5000}),
